@@ -31,6 +31,8 @@ VERIF = os.path.dirname(os.path.dirname(os.path.abspath(__file__)))
 PY = os.environ.get('VERIF_PYTHON', '/venv/bin/python')
 REPO = os.environ.get('VERIF_REPO', '/repo')
 WORK = os.path.join(VERIF, '.work')
+# runs against a scratch copy (VERIF_REPO=<copy>, tools/seeded.py) must not overwrite the evidence of /repo
+EVID = os.environ.get('VERIF_EVIDENCE') or os.path.join(VERIF, 'evidence')
 NCPU = int(os.environ.get('VERIF_JOBS', '0')) or min(16, os.cpu_count() or 4)
 
 
@@ -237,7 +239,7 @@ class Agg:
     def finish(self, rule, assumptions=(), extra=None, level='exploration',
                exhaustive=None):
         known = load_known()
-        rdir = os.path.join(VERIF, 'evidence', 'replay', self.prop)
+        rdir = os.path.join(EVID, 'replay', self.prop)
         shutil.rmtree(rdir, ignore_errors=True)
         new, hits = [], {}
         for v in self.violations:
@@ -294,8 +296,8 @@ class Agg:
             'level': level, 'coverage': cov, 'assumptions': list(assumptions),
             'wall_s': round(wall, 2), 'violations': len(new),
         }
-        os.makedirs(os.path.join(VERIF, 'evidence'), exist_ok=True)
-        with open(os.path.join(VERIF, 'evidence', '%s.json' % self.prop), 'w') as f:
+        os.makedirs(EVID, exist_ok=True)
+        with open(os.path.join(EVID, '%s.json' % self.prop), 'w') as f:
             json.dump(ev, f, indent=1, default=str)
         for ln in lines:
             print(ln)
